@@ -41,6 +41,21 @@ BadOf(e, line) ==
     IN IF ~Binding(e) THEN <<[id |-> e.id, line |-> line, op |-> "case", why |-> "MACHINERY-Binding"]>>
        ELSE SelectSeq(judged, LAMBDA b : b.why # "") \o crash
 
+\* how often the antecedents of the formulas were met by the replayed cases (non-vacuity)
+CaseLines == { i \in 1..Len(Log) : Log[i].e = "Case" }
+ClassOf(e) == Class(e.mappings, e.req, e.cur)
+RefPath(e) == Walk(e.mappings, e.req, e.cur).p
+Stats ==
+    LET ref == { i \in CaseLines : ClassOf(Log[i]) = "reference" }
+        withFile == { i \in ref : Resolve(Log[i].mappings, TreesOf(Log[i]), Log[i].req, Log[i].cur).k = "file" }
+    IN [reference |-> Cardinality(ref),
+        traversal |-> Cardinality({ i \in CaseLines : ClassOf(Log[i]) = "traversal" }),
+        containedOnly |-> Cardinality({ i \in CaseLines : ClassOf(Log[i]) = "contained" }),
+        refFile |-> Cardinality(withFile),
+        severalRootsHit |-> Cardinality({ i \in withFile : Cardinality(Hits(Log[i].mappings, TreesOf(Log[i]), RefPath(Log[i]))) > 1 }),
+        nestedPrefixes |-> Cardinality({ i \in withFile :
+                              Cardinality({ Len(Log[i].mappings[j].virt) : j \in Cands(Log[i].mappings, RefPath(Log[i])) }) > 1 })]
+
 TraceInit == l = 1 /\ bad = <<>> /\ nops = 0 /\ done = FALSE
 
 Consume ==
@@ -56,7 +71,7 @@ Finish ==
     /\ l = Len(Log) + 1
     /\ ~done
     /\ done' = TRUE
-    /\ PrintT("VERDICT " \o ToJson([lines |-> Len(Log), ops |-> nops, bad |-> bad]))
+    /\ PrintT("VERDICT " \o ToJson([lines |-> Len(Log), ops |-> nops, bad |-> bad, stats |-> Stats]))
     /\ UNCHANGED <<l, bad, nops>>
 
 TraceSpec == TraceInit /\ [][Consume \/ Finish]_tvars
